@@ -2,7 +2,7 @@
 EXTENDS GroupLine, Json, IOUtils
 DefSeq == ndJsonDeserialize(IOEnv.DEFS)
 MCDefs == RangeOf(DefSeq)
-GEmit == PrintT(<<"REPLAY", ToJson([def |-> def.id, line |-> line, env |-> env, outside |-> FALSE, expect |-> GOut])>>)
+GEmit == PrintT(<<"REPLAY", ToJson([def |-> def.id, line |-> line, env |-> env, outside |-> st.out, expect |-> GOut])>>)
 GCEmit == GViable(def, st) => PrintT(<<"REPLAY", ToJson([def |-> def.id, line |-> line, env |-> env, outside |-> FALSE, acmds |-> <<>>,
              comps |-> {[p |-> PartialText(p), must |-> GMustOffer(def, st, p), may |-> GMayOffer(def, st, p), pending |-> (st.pending # "")]
                         : p \in GPartials(def)}])>>)
